@@ -148,6 +148,26 @@ package y
 //@ func (*WaterMark).DoneUntil
 //@   props C34
 //@   ensures result == w.doneUntil.v
+// The processing goroutine (this is what WaitForMark's rely clauses assume): a begin adds one to
+// the index's pending count and a done subtracts one; the mark moves only over indices whose
+// count is not positive and is published before any waiter is released; a waiter is released
+// only for an index at or below the published mark.
+//@ func (*WaterMark).process.processOne
+//@   props C34
+//@   light
+//@   assert[begin-adds-done-subtracts] before call DoneUntil : pending[index] == prev + delta && (done ? delta == -1 : delta == 1)
+//@   assert[pop-only-finished-indices] before call Pop : pending[min] <= 0 && min == indices[0]
+//@   assert[mark-published-when-advanced] before call CompareAndSwap : arg1 == doneUntil && arg2 == until && until != doneUntil
+//@   assert[waiters-up-to-the-new-mark] before call notifyAndRemove#1 : arg0 == idx && idx <= until
+//@   assert[waiters-up-to-the-new-mark-sparse] before call notifyAndRemove#2 : arg0 == idx && idx <= until
+
+//@ func (*WaterMark).process
+//@   props C34
+//@   light
+//@   assert[waiter-released-only-when-done] before call close : ret(Load#1) >= mark.index && arg0 == mark.waiter
+//@   assert[begin-or-done-of-this-mark] before call processOne#1 : arg0 == mark.index && arg1 == mark.done
+//@   assert[each-listed-index] before call processOne#2 : arg0 == index && arg1 == mark.done
+
 // WaitForMark returns nil only once doneUntil has reached the index: either it already has, or
 // the caller blocks until its waiter channel is closed. What the processing goroutine guarantees
 // while the caller is blocked is assumed (rely): doneUntil only grows, and the waiter channel of
